@@ -520,10 +520,54 @@ theorem storeSolution_spec {o : ArcObj} (hc : o.Coherent) (used : List ATup) :
   | none => exact ⟨⟨hE.vars, hE.obj, hE.con⟩, rfl, rfl, rfl⟩
   | some idxs => exact ⟨⟨hE.vars, hE.obj, hE.con⟩, rfl, rfl, rfl⟩
 
+/-- the heuristic on an EMPTY time grid, coherent object, ANY harmless flag action at the loop head: coherent
+    afterwards, the problem data are those of the instance-level run (the entry arc of the first unvisited node stays when
+    `self.time_points[0]` raises after it), and the stored solution is updated as the instance-level outcome says -/
+theorem emptyGridWith_spec {head : ArcObj → ArcObj} (hh : Harmless head) {o : ArcObj} (hc : o.Coherent) (high : Rat) :
+    (o.emptyGridWith head high).1.Coherent ∧
+    (o.emptyGridWith head high).1.inst = (o.inst.heurEmptyP high).1 ∧
+    (match (o.inst.heurEmptyP high).2 with
+     | .ok sol => (o.emptyGridWith head high).1.sol = some sol ∧ (o.emptyGridWith head high).2 = .ok ()
+     | .lookupFailed => (o.emptyGridWith head high).1.sol = none ∧ (o.emptyGridWith head high).2 = .error .value
+     | .raised e => (o.emptyGridWith head high).1.sol = o.sol ∧ (o.emptyGridWith head high).2 = .error e) := by
+  unfold emptyGridWith ArcInst.heurEmptyP
+  by_cases hv : o.inst.g.estimateMaxVehicles ≠ 0
+  · rw [if_pos hv, if_pos hv]
+    exact ⟨hc, rfl, rfl, rfl⟩
+  · rw [if_neg hv, if_neg hv]
+    generalize (List.range (o.inst.g.nodes.length - 1)).map (· + 1) = l
+    cases l with
+    | nil =>
+      obtain ⟨k1, k2, k3⟩ := storeSolution_spec hc []
+      exact ⟨k1, k2, k3⟩
+    | cons n rest =>
+      simp only
+      have e0 := (hh.flagOnly o).1
+      have s0 := (hh.flagOnly o).2
+      have c0 := hh.coh o hc
+      generalize head o = o0 at e0 s0 c0 ⊢
+      rw [← e0, ← s0]
+      clear e0 s0
+      split_ifs with h1
+      · exact ⟨c0, rfl, rfl, rfl⟩
+      · obtain ⟨m1, m2, m3, m4⟩ := mutate_addArc o0 (nameOf o0.inst.g 0) (nameOf o0.inst.g n) 0 high
+        have mc := (mutate_spec o0 (.op (.addArc (nameOf o0.inst.g 0) (nameOf o0.inst.g n) 0 high))).1.coherent
+        generalize o0.mutate _ = a at m1 m2 m3 m4 mc ⊢
+        generalize gstep .base o0.inst.g _ = G at m1 m3 m4 ⊢
+        rw [m1]
+        clear m1
+        obtain ⟨g', r⟩ := G
+        simp only at m3 m4 ⊢
+        rcases r with e | (_ | (_ | _))
+        · exact ⟨mc, m4 (by simp), m2, rfl⟩
+        · exact ⟨mc, m4 (by simp), m2, rfl⟩
+        · exact ⟨mc, m4 (by simp), m2, rfl⟩
+        · exact ⟨mc, m3, m2, rfl⟩
+
 /-- the heuristic on a coherent object, with ANY harmless flag actions at the two explicit reset sites: coherent
     afterwards (also when it raises), the problem data are those of the instance-level run, and the stored solution is
     updated as the instance-level outcome says.  (Every change of the problem data inside the heuristic goes through
-    the public `add_arc`, which runs the hook.) -/
+    the public `add_arc`, which runs the hook.)  The empty time grid is included (`emptyGridWith_spec`). -/
 theorem makeFeasibleWith_spec {head exit : ArcObj → ArcObj} (hh : Harmless head) (hx : Harmless exit) {o : ArcObj}
     (hc : o.Coherent) (high : Rat) :
     (o.makeFeasibleWith head exit high).1.Coherent ∧
@@ -535,14 +579,14 @@ theorem makeFeasibleWith_spec {head exit : ArcObj → ArcObj} (hh : Harmless hea
      | .raised e =>
         (o.makeFeasibleWith head exit high).1.sol = o.sol ∧ (o.makeFeasibleWith head exit high).2 = .error e) := by
   unfold makeFeasibleWith ArcInst.heurP
-  cases hg : o.inst.greedy with
-  | error e => exact ⟨hc, rfl, rfl, rfl⟩
-  | ok p =>
-    obtain ⟨unv, used⟩ := p
+  cases ht : o.inst.T.head? with
+  | none => exact emptyGridWith_spec hh hc high
+  | some t0 =>
     simp only
-    cases ht : o.inst.T.head? with
-    | none => exact ⟨hc, rfl, rfl, rfl⟩
-    | some t0 =>
+    cases hg : o.inst.greedy with
+    | error e => exact ⟨hc, rfl, rfl, rfl⟩
+    | ok p =>
+      obtain ⟨unv, used⟩ := p
       simp only
       obtain ⟨h1, h2, h3⟩ := dummyLoop_abs hh.flagOnly hx.flagOnly t0 high o used unv
       have h4 := dummyLoop_coherent hh hx t0 high o hc used unv
@@ -682,9 +726,12 @@ theorem lookup_foldl {α : Type} (f : α → Option Nat) (l : List α) (acc : Li
       | cons b rest ih2 => rw [List.foldl_cons]; exact ih2
     | some k => exact ih _
 
-/-- **connection to `ArcInst.makeFeasible`** (VrpModel/Heuristics.lean): the partial-effect heuristic of the
-    specification succeeds exactly when that one does, with the same instance and solution, and raises the same error -/
-theorem arc_makeFeasible_eq_heurP (I : ArcInst) (high : Rat) :
+/-- **connection to `ArcInst.makeFeasible`** (VrpModel/Heuristics.lean), for a NON-EMPTY time grid: the partial-effect
+    heuristic of the specification succeeds exactly when that one does, with the same instance and solution, and raises
+    the same error.  The hypothesis `I.T ≠ []` is needed: `ArcInst.makeFeasible` (documented as not covering the empty
+    grid) answers `.error .index` for every empty grid, whereas the code — and `heurP` — succeed with the empty
+    solution when the grid is empty, `max_vehicles = 0` and no node is unvisited (`arc_heurP_emptyGrid_ok`). -/
+theorem arc_makeFeasible_eq_heurP (I : ArcInst) (hT : I.T ≠ []) (high : Rat) :
     I.makeFeasible high =
       match (I.heurP high).2 with
       | .ok sol => .ok ((I.heurP high).1, sol)
@@ -692,7 +739,7 @@ theorem arc_makeFeasible_eq_heurP (I : ArcInst) (high : Rat) :
       | .raised e => .error e := by
   unfold ArcInst.makeFeasible ArcInst.heurP ArcInst.greedy
   cases ht : I.T.head? with
-  | none => rfl
+  | none => exact absurd (List.head?_eq_none_iff.mp ht) hT
   | some t0 =>
     simp only
     generalize List.foldl _ _ (List.range I.g.estimateMaxVehicles) = r1
@@ -712,6 +759,25 @@ theorem arc_makeFeasible_eq_heurP (I : ArcInst) (high : Rat) :
         cases lookupAllI (arcDummyLoopI t0 high I used unv).1.varIndex used1 [] with
         | none => rfl
         | some idxs => rfl
+
+/-- on an empty grid `ArcInst.makeFeasible` reports `.error .index` whatever the graph -/
+theorem arc_makeFeasible_emptyGrid (I : ArcInst) (hT : I.T = []) (high : Rat) :
+    I.makeFeasible high = .error .index := by
+  unfold ArcInst.makeFeasible
+  rw [hT]
+  rfl
+
+/-- the sub-case in which the connection fails without `I.T ≠ []`: empty grid, `max_vehicles = 0`, at most the depot —
+    the code (and `heurP`) store the empty all-zero solution and return normally -/
+theorem arc_heurP_emptyGrid_ok (I : ArcInst) (hT : I.T = []) (hv : I.g.estimateMaxVehicles = 0)
+    (hN : I.g.nodes.length ≤ 1) (high : Rat) : I.heurP high = (I, .ok (solVec I.vars.length [])) := by
+  unfold ArcInst.heurP ArcInst.heurEmptyP
+  rw [hT]
+  have hl : (List.range (I.g.nodes.length - 1)).map (· + 1) = [] := by
+    have : I.g.nodes.length - 1 = 0 := by omega
+    rw [this]
+    rfl
+  simp only [List.head?_nil, hv, ne_eq, not_true_eq_false, if_false, hl]
 
 /-! ## sequence object -/
 
